@@ -111,12 +111,12 @@ def build_case(spec):
         a._verifSrc = 1000 + k
         for b in a:
             for p in PARAMS:
-                b.p[p] = rng.randint(0, 512) / 8.0
-            vals = [rng.randint(0, 512) / 8.0, rng.randint(0, 512) / 8.0]
+                b.p[p] = rng.randint(1, 512) / 8.0
+            vals = [rng.randint(1, 512) / 8.0, rng.randint(1, 512) / 8.0]
             b.p[LISTPARAM] = vals if spec.get("arr", "list") == "list" else np.array(vals)
         if spec.get("arr") == "aliased" and cell_of(a) == (0, 0):
             # one array object shared by all blocks of the centre assembly (a memoised flux table does this)
-            shared = np.array([rng.randint(0, 512) / 8.0, rng.randint(0, 512) / 8.0])
+            shared = np.array([rng.randint(1, 512) / 8.0, rng.randint(1, 512) / 8.0])
             for b in a:
                 b.p[LISTPARAM] = shared
     # what the name tables and the pool hold besides the core children (pool assemblies, blueprint / load-queue
@@ -218,6 +218,64 @@ def same(x, y):
     return x == y
 
 
+def edge_pairs(core):
+    """(assembly on the 0-degree line, its partner on the 120-degree line) for every cut assembly with both halves"""
+    by = {cell_of(a): a for a in core}
+    return [(a, by[(-c[0] - c[1], c[0])]) for c, a in sorted(by.items()) if on0(c) and (-c[0] - c[1], c[0]) in by]
+
+
+def lines_aligned(core):
+    cells = {cell_of(a) for a in core}
+    low = {(-c[0] - c[1], c[0]) for c in cells if on0(c)}
+    up = {c for c in cells if on120(c)}
+    return low == up
+
+
+def symmetry_ok(r, fails, case, tag, base_totals):
+    """Symmetry factor by geometric classification of the cell (centre 3; on a symmetry line with its 120-degree partner
+    also modelled 2; else 1), and: a third core carrying its edge assemblies holds the same mass / volume as without."""
+    core = r.core
+    if core.isFullCore:
+        bad = [a.name for a in core if a.getSymmetryFactor() != 1.0 or any(b.getSymmetryFactor() != 1.0 for b in a)]
+        if bad:
+            fails.append(Failure("symmetry-factor-by-geometry", "full-core assemblies are whole (factor 1)", case,
+                                 observed=bad[:4], note=tag))
+        return
+    cells = {cell_of(a) for a in core}
+    wrong, heuristic = [], True
+    for a in core:
+        c = cell_of(a)
+        if c == (0, 0):
+            want = 3.0
+        elif on0(c) and (-c[0] - c[1], c[0]) in cells:
+            want = 2.0
+        elif on120(c) and (c[1], c[0]) in cells:
+            want = 2.0
+        else:
+            want = 1.0
+        got = {float(a.getSymmetryFactor())} | {float(b.getSymmetryFactor()) for b in a}
+        if got != {want}:
+            wrong.append((a.name, c, sorted(got), want))
+            if not (got == {1.0} and want == 2.0 and (-1, 2) not in cells):
+                heuristic = False
+    if wrong:
+        # the unchanged code recognises edge assemblies by the ring-3 cell (-1,2) alone: with a hole there, cut
+        # assemblies of other rings count as whole (a listed finding); any other mismatch is new
+        key = "edge-symmetry-factor-needs-ring3-edge-cell" if heuristic else "symmetry-factor-by-geometry"
+        fails.append(Failure(key, "a block cut by a symmetry line (both halves modelled) has symmetry factor 2, the centre 3, "
+                             "every other 1 - blocks on the 120-degree line exactly as their partners on the 0-degree line",
+                             case, observed=wrong[:4], note=tag))
+        return
+    if base_totals is not None and lines_aligned(core):
+        got = geo_totals(core)
+        for gi, (x, y) in enumerate(zip(got, base_totals)):
+            if not close(x, y):
+                fails.append(Failure("mass-with-edge-assemblies", "a third core carrying its edge assemblies holds the same mass "
+                                     "and volume as without them (= full core / 3)", case, observed=x, expected=y,
+                                     note=tag + " quantity %s" % (NUCS + ["volume"])[gi]))
+                return
+
+
 def lookups_ok(r, fails, case, tag):
     """childrenByLocator / assembliesByName / blocksByName resolve exactly to the children."""
     core = r.core
@@ -287,6 +345,8 @@ def run_case(ctx, spec, ops, compare=True):
     impl = [None]            # filled with the model's echo of init (not compared with impl)
     floats = []              # (index of request line, impl float list)
     lookups_ok(r, fails, case, "init")
+    base_totals = geo_totals(core) if not any(on120(cell_of(a)) for a in core) else None
+    symmetry_ok(r, fails, case, "init", base_totals)
     base0 = snapshot(r, with_mass=False)
     had_edges0 = any(on120(cell_of(a)) for a in core)
     full0 = snapshot(r, with_mass=True) if not had_edges0 else None
@@ -310,10 +370,27 @@ def run_case(ctx, spec, ops, compare=True):
                 "objs": {id(x) for a in src for x in [a] + a.getChildren(deep=True)},
                 "calc": [core.calcTotalParam(p, generationNum=2, addSymmetricPositions=True) for p in PARAMS],
             }
+        if op == "solveScale":
+            pairs = edge_pairs(core)
+            if core.isFullCore or not pairs or not lines_aligned(core):
+                continue                      # only meaningful on a third core whose cut assemblies all have both halves
         raised = None
         try:
             with common.quiet():
-                if op == "convert":
+                if op == "solveScale":
+                    # what a flux solver on the model with edge assemblies hands back: each half of a cut assembly
+                    # carries half of the whole hexagon's volume-integrated values; then the public scaling call
+                    for a, image in pairs:
+                        for b, bi in zip(a, image):
+                            for pn in PARAMS:
+                                whole = float(b.p[pn])
+                                b.p[pn] = whole / 2.0
+                                bi.p[pn] = whole / 2.0
+                            vals = [float(x) for x in b.p[LISTPARAM]]
+                            b.p[LISTPARAM] = [v / 2.0 for v in vals]
+                            bi.p[LISTPARAM] = [v / 2.0 for v in vals]
+                    ec.scaleParamsRelatedToSymmetry(core)
+                elif op == "convert":
                     ch.convert(r)
                 elif op == "restore":
                     ch.restorePreviousGeometry(r)
@@ -340,6 +417,8 @@ def run_case(ctx, spec, ops, compare=True):
         impl.append(common.ratlist(par_totals(core)))
         # ---------------- implementation-side oracle
         lookups_ok(r, fails, case, tag)
+        if raised is None:
+            symmetry_ok(r, fails, case, tag, base_totals)
         if raised is not None:
             key = "restore-without-centre-raises" if (op == "restore" and not any(cell_of(a) == (0, 0) for a in core)) \
                 else "operation-raises"
@@ -485,7 +564,7 @@ def gen_spec(rng, kind):
 def gen_ops(rng, n):
     ops = []
     for _ in range(n):
-        ops.append(rng.choice(["convert", "restore", "addEdge", "removeEdge", "convert", "restore"]))
+        ops.append(rng.choice(["convert", "restore", "addEdge", "removeEdge", "convert", "restore", "solveScale", "addEdge"]))
     return ops
 
 
@@ -496,16 +575,18 @@ def in_model_domain(spec, ops):
 
 def run(ctx):
     rng = ctx.rng
-    ncases = ctx.pick(16, 150)
+    ncases = ctx.pick(17, 150)
     plan = []
     # fixed corpus first: the design-round probes and the excluded points
     plan.append(({"rings": 9, "holes": [], "edges0": False, "vseed": 1}, ["convert", "restore"]))
+    plan.append(({"rings": 7, "holes": [], "edges0": False, "vseed": 12},
+                 ["addEdge", "solveScale", "removeEdge", "addEdge", "solveScale", "convert", "restore"]))
     plan.append(({"rings": 6, "holes": [], "edges0": False, "vseed": 11, "track": True},
                  ["convert", "restore", "addEdge", "removeEdge", "convert", "restore", "addEdge", "removeEdge"]))
     plan.append(({"rings": 5, "holes": [], "edges0": False, "vseed": 7, "arr": "aliased"},
                  ["addEdge", "removeEdge", "convert", "restore", "addEdge", "removeEdge"]))
     plan.append(({"rings": 9, "holes": [], "edges0": False, "vseed": 2}, ["addEdge", "convert", "restore"]))      # F10
-    plan.append(({"rings": 4, "holes": [[2, -1]], "edges0": False, "vseed": 3},
+    plan.append(({"rings": 6, "holes": [[2, -1]], "edges0": False, "vseed": 3},
                  ["addEdge", "removeEdge", "convert", "addEdge", "restore", "addEdge", "removeEdge"]))
     plan.append((gen_spec(rng, "nocentre"), ["convert", "restore"]))
     plan.append((gen_spec(rng, "centreonly"), ["convert", "restore"]))
@@ -579,23 +660,27 @@ def domain_requests(ctx):
 
 
 def search(ctx, disagreements, broken):
-    """Directed search around disagreeing cases: every op sequence of length <= 3 on the same core, oracle only."""
-    import itertools
+    """Directed search, capped (quick ~90 s): the disagreeing case itself, then its prefixes and a few short
+    sequences on the same core, oracle only; stops at the first concrete failing input or when the budget is spent."""
+    import time
+    deadline = time.time() + ctx.pick(90, 300)
     out, done = [], set()
+    sub = type(ctx)(ctx.prop, ctx.tier, ctx.seed)
+    short = [["addEdge", "solveScale", "removeEdge"], ["convert", "restore"], ["addEdge", "convert", "restore"],
+             ["addEdge", "removeEdge"], ["convert"]]
+    cases = []
     for d in disagreements:
         c = d.case
-        if not isinstance(c, dict) or "spec" not in c:
-            continue
-        key = str(c["spec"])
-        if key in done:
-            continue
-        done.add(key)
-        seqs = [list(c["ops"])] + [list(s) for n in (1, 2, 3) for s in itertools.product(OPS, repeat=n)]
-        sub = type(ctx)(ctx.prop, ctx.tier, ctx.seed)
-        for ops in seqs[:60]:
+        if isinstance(c, dict) and "spec" in c and str(c["spec"]) not in done:
+            done.add(str(c["spec"]))
+            cases.append(c)
+    for c in cases:
+        for ops in [list(c["ops"])] + short:
+            if time.time() > deadline:
+                return out
             fails, _, _, _ = run_case(sub, c["spec"], ops)
             out += fails
-            if len(out) > 20:
+            if out:
                 return out
     return out
 
